@@ -20,6 +20,7 @@ import (
 	"strconv"
 	"strings"
 	"sync"
+	"syscall"
 	"time"
 )
 
@@ -118,7 +119,10 @@ type plan struct {
 	Real          []string `json:"real"`
 	Stub          []string `json:"stub"`
 	JobTimeoutSec int      `json:"job_timeout_sec"`
-	Exhaustive    bool     `json:"exhaustive"` // the harness enumerates a finite space completely
+	CaseStallSec  int      `json:"case_stall_sec"` // per-case wall-clock watchdog (0: none)
+	DetFresh      bool     `json:"det_fresh"`      // determinism self-test compares single-case fresh processes (stateful harness)
+	StallIsHang   bool     `json:"stall_is_hang"`  // a reproducible stall is a hang of the program under test
+	Exhaustive    bool     `json:"exhaustive"`     // the harness enumerates a finite space completely
 }
 
 var commonReal = []string{"all murex code on the simulated path (instrumented only by mxinstr rules R1-R6)", "Go runtime 1.26.8", "testing/synctest fake clock and quiescence"}
@@ -290,7 +294,16 @@ var jobSeq int
 var jobMu sync.Mutex
 
 // runJob runs one worker process; returns the lines it produced, its stderr tail and whether it completed.
+var caseStall time.Duration // per-case wall-clock watchdog (plan: case_stall_sec)
+var stallIsHang bool        // plan: a case that stalls the worker twice is a hang of murex, not infrastructure
+
 func runJob(worker string, j Job, gomaxprocs int, timeout time.Duration) (lines []line, stderrTail string, done bool, timedOut bool) {
+	stalled := false
+	defer func() {
+		if stalled {
+			stderrTail = "STALLED\n" + stderrTail
+		}
+	}()
 	jobMu.Lock()
 	jobSeq++
 	n := jobSeq
@@ -323,13 +336,38 @@ func runJob(worker string, j Job, gomaxprocs int, timeout time.Duration) (lines 
 	}
 	ch := make(chan error, 1)
 	go func() { ch <- cmd.Wait() }()
-	select {
-	case <-ch:
-	case <-time.After(timeout):
-		cmd.Process.Kill()
-		<-ch
-		timedOut = true
+	// wall-clock watchdogs: the whole job, and "no record for caseStall" (a case that spins in code
+	// without yield points, or waits on something real, never comes back to the scheduler)
+	deadline := time.After(timeout)
+	tick := time.NewTicker(time.Second)
+	var lastSize int64 = -1
+	lastChange := time.Now()
+wait:
+	for {
+		select {
+		case <-ch:
+			break wait
+		case <-deadline:
+			cmd.Process.Kill()
+			<-ch
+			timedOut = true
+			break wait
+		case <-tick.C:
+			if st, err := os.Stat(j.Out); err == nil && st.Size() != lastSize {
+				lastSize = st.Size()
+				lastChange = time.Now()
+			} else if caseStall > 0 && time.Since(lastChange) > caseStall {
+				cmd.Process.Signal(syscall.SIGQUIT) // goroutine dump into the stderr file
+				time.Sleep(500 * time.Millisecond)
+				cmd.Process.Kill()
+				<-ch
+				timedOut = true
+				stalled = true
+				break wait
+			}
+		}
 	}
+	tick.Stop()
 	ef.Close()
 	f, err := os.Open(j.Out)
 	if err == nil {
@@ -348,7 +386,14 @@ func runJob(worker string, j Job, gomaxprocs int, timeout time.Duration) (lines 
 		f.Close()
 	}
 	eb, _ := os.ReadFile(errPath)
-	if len(eb) > 6000 {
+	if stalled {
+		if i := strings.Index(string(eb), "SIGQUIT"); i >= 0 {
+			eb = eb[i:]
+		}
+		if len(eb) > 60000 {
+			eb = eb[:60000]
+		}
+	} else if len(eb) > 6000 {
 		eb = eb[len(eb)-6000:]
 	}
 	stderrTail = string(eb)
@@ -423,6 +468,13 @@ func runRange(worker string, base Job, from, count int, timeout time.Duration) (
 		if done {
 			return
 		}
+		if timedOut && stallIsHang && strings.HasPrefix(stderr, "STALLED") && inflight >= 0 {
+			// no scheduling decision for caseStall of wall time: the case spins in code without yield
+			// points (or waits on something real). Reported as a hang only after it stalls again alone.
+			recs = append(recs, Record{I: inflight, Verdict: "hang", Clause: "wall-clock-stall", Detail: stallDetail(stderr), Case: inflightCase})
+			next = inflight + 1
+			continue
+		}
 		if timedOut {
 			return recs, fmt.Sprintf("worker exceeded its wall-clock watchdog (%v) at case %d (a real stall, e.g. an uninstrumented wait); stderr tail:\n%s", timeout, inflight, tail(stderr, 1500))
 		}
@@ -435,6 +487,29 @@ func runRange(worker string, base Job, from, count int, timeout time.Duration) (
 		}
 	}
 	return
+}
+
+// stallDetail: the murex frames of the goroutines that were running when the stalled worker was dumped
+func stallDetail(stderr string) string {
+	var out []string
+	for _, blk := range strings.Split(stderr, "\n\n") {
+		if strings.Contains(blk, "[running]") || strings.Contains(blk, "[runnable]") {
+			n := 0
+			for _, l := range strings.Split(blk, "\n") {
+				if strings.HasPrefix(l, "github.com/lmorg/murex/") && !strings.Contains(l, "/utils/simrt.") {
+					out = append(out, strings.SplitN(l, "(", 2)[0])
+					n++
+					if n >= 4 {
+						break
+					}
+				}
+			}
+		}
+	}
+	if len(out) > 12 {
+		out = out[:12]
+	}
+	return fmt.Sprintf("no scheduling decision for %v of wall time; running goroutines were in: %s", caseStall, strings.Join(out, " <- "))
 }
 
 func tail(s string, n int) string {
@@ -457,6 +532,9 @@ func runCase(worker, prop string, c *Case, full bool, timeout time.Duration) (Re
 		if l.Cand == nil {
 			return l.Record, true
 		}
+	}
+	if timedOut && stallIsHang && strings.HasPrefix(stderr, "STALLED") {
+		return Record{Verdict: "hang", Clause: "wall-clock-stall", Detail: stallDetail(stderr), Case: c}, true
 	}
 	if timedOut {
 		return Record{Verdict: "infra", Clause: "watchdog", Detail: tail(stderr, 1500)}, false
@@ -568,6 +646,8 @@ func check(prop, tier string) int {
 	worker, instr := prepare(pl.Race, pl.Helper)
 	defer cleanup()
 	fmt.Printf("mxsim: instrumented copy of /repo built in %.1fs (%s)\n", time.Since(t0).Seconds(), instr)
+	caseStall = time.Duration(pl.CaseStallSec) * time.Second
+	stallIsHang = pl.StallIsHang
 	timeout := time.Duration(pl.JobTimeoutSec) * time.Second
 	if timeout == 0 {
 		timeout = 10 * time.Minute
@@ -725,7 +805,47 @@ func check(prop, tier string) int {
 		}
 		var dmu sync.Mutex
 		var dwg sync.WaitGroup
-		for _, gmp := range []int{1, 4, 16} {
+		gmps := []int{1, 4, 16}
+		if pl.DetFresh {
+			// the harness's programs change process-global murex state, so a case is only a function of
+			// (case, code) when it runs alone: compare two fresh single-case processes with each other
+			gmps = nil
+			var idx []int
+			for i := range want {
+				idx = append(idx, i)
+			}
+			sort.Ints(idx)
+			dsem := make(chan struct{}, 16)
+			for _, i := range idx {
+				dwg.Add(1)
+				dsem <- struct{}{}
+				go func(i int) {
+					defer dwg.Done()
+					defer func() { <-dsem }()
+					var got [2]*Record
+					for k, gmp := range []int{1, 16} {
+						j := Job{Prop: prop, Mode: "search", Tier: tier, Seed0: seeds[0], From: i, Count: 1, Stride: 1}
+						lines, _, _, _ := runJob(worker, j, gmp, timeout)
+						for n := range lines {
+							if lines[n].Start == nil && lines[n].Cand == nil {
+								got[k] = &lines[n].Record
+							}
+						}
+					}
+					dmu.Lock()
+					defer dmu.Unlock()
+					if got[0] == nil || got[1] == nil {
+						return // the case kills its worker: nothing to compare (it is reported through the crash path)
+					}
+					detChecked += 2
+					if got[0].Hash != got[1].Hash || got[0].Verdict != got[1].Verdict || got[0].Steps != got[1].Steps {
+						detMismatch++
+						detMsg = fmt.Sprintf("case %d alone: GOMAXPROCS=1 hash=%s steps=%d verdict=%s; GOMAXPROCS=16 hash=%s steps=%d verdict=%s", i, got[0].Hash, got[0].Steps, got[0].Verdict, got[1].Hash, got[1].Steps, got[1].Verdict)
+					}
+				}(i)
+			}
+		}
+		for _, gmp := range gmps {
 			dwg.Add(1)
 			go func(gmp int) {
 				defer dwg.Done()
